@@ -366,6 +366,43 @@ pub fn dominance_body(seed: u64, nq: usize, use_val: bool) {
     }
 }
 
+/// C18: the store answers as the Pareto front (a SET) of everything recorded would: the same states recorded in
+/// two different orders must give identical answers (verdict and threshold) to every later query
+pub fn dominance_order_body(seed: u64, nq: usize, use_val: bool) {
+    let mut r = Rng(seed ^ 0x0dd);
+    let fwd = SimpleDominanceChecker::new(Dom2 { use_val }, 1);
+    let bwd = SimpleDominanceChecker::new(Dom2 { use_val }, 1);
+    let mut items: Vec<(DState, Cost)> = vec![];
+    for i in 0..nq {
+        let key = if r.chance(4, 5) { 0 } else { 1 };
+        items.push((DState { key, c: [Cost::input(&format!("a{}", i), -100, 100), Cost::input(&format!("b{}", i), -100, 100)] }, Cost::input(&format!("val{}", i), -100, 100)));
+    }
+    for (st, v) in items.iter() {
+        let _ = fwd.is_dominated_or_insert(Arc::new(st.clone()), 0, *v);
+    }
+    for (st, v) in items.iter().rev() {
+        let _ = bwd.is_dominated_or_insert(Arc::new(st.clone()), 0, *v);
+    }
+    for i in 0..2 {
+        let st = DState { key: 0, c: [Cost::input(&format!("pa{}", i), -100, 100), Cost::input(&format!("pb{}", i), -100, 100)] };
+        let v = Cost::input(&format!("pval{}", i), -100, 100);
+        let a = fwd.is_dominated_or_insert(Arc::new(st.clone()), 0, v);
+        let b = bwd.is_dominated_or_insert(Arc::new(st.clone()), 0, v);
+        observe("order", a.dominated as i64 * 2 + b.dominated as i64);
+        if a.dominated != b.dominated {
+            panic!("SYMX-LABEL[C18:front-order-independent] the same recorded states give different verdicts depending on the order in which they were recorded");
+        }
+        if a.dominated {
+            note("dominated");
+            match (a.threshold, b.threshold) {
+                (Some(x), Some(y)) => oblige("C18:front-order-independent", x.eq_c(y)),
+                (None, None) => {}
+                _ => panic!("SYMX-LABEL[C18:front-order-independent] threshold present in one order only"),
+            }
+        }
+    }
+}
+
 // ------------------------------------------------------------------ C18: concurrent phases under the scheduler
 #[cfg(feature = "sched")]
 pub fn cache_conc_body(nthreads: usize, nops: usize, preempt: u32, seed: u64) {
@@ -471,13 +508,25 @@ pub fn dominance_conc_body(nthreads: usize, preempt: u32, use_val: bool) {
     if sum.switches > 0 {
         note("context_switch");
     }
-    // afterwards the store answers as the Pareto front of everything recorded (order independent)
+    // afterwards the store answers as the Pareto front of everything recorded (order independent):
+    // verdict against the reference definition, verdict + threshold against a store filled sequentially
+    let seq = SimpleDominanceChecker::new(Dom2 { use_val }, 1);
+    for (st, v) in presented.iter() {
+        let _ = seq.is_dominated_or_insert(Arc::new(st.clone()), 0, *v);
+    }
     for i in 0..2 {
         let st = DState { key: 0, c: [Cost::input(&format!("pa{}", i), -100, 100), Cost::input(&format!("pb{}", i), -100, 100)] };
         let v = Cost::input(&format!("pval{}", i), -100, 100);
         let q = (st.clone(), v);
         let expect = dominated_by_any(use_val, &presented, &q);
-        let res = checker.is_dominated_or_insert(Arc::new(st), 0, v);
+        let res = checker.is_dominated_or_insert(Arc::new(st.clone()), 0, v);
+        let sres = seq.is_dominated_or_insert(Arc::new(st), 0, v);
+        if res.dominated != sres.dominated {
+            panic!("SYMX-LABEL[C18:front-order-independent] store filled concurrently and store filled sequentially give different verdicts");
+        }
+        if let (Some(x), Some(y)) = (res.threshold, sres.threshold) {
+            oblige("C18:front-order-independent", x.eq_c(y));
+        }
         if res.dominated {
             oblige("C18:dominance-front-after-concurrency", expect);
         } else {
